@@ -138,7 +138,6 @@ Lemma for_run_frame x key rv body els items0 limit offset ic c b :
   frame c (cx (for_run g rec x key rv body els items0 limit offset ic c b)).
 Proof.
   unfold for_run.
-  destruct (is_neg limit || is_neg offset); [apply frame_refl|].
   set (sl := loop_slice _ _ _ _ _ _).
   set (c0 := set_stopindex c _).
   assert (F0 : frame c c0) by apply frame_set_stopindex.
